@@ -1,4 +1,4 @@
-import SctpVerif.Proofs.PendQRR
+import SctpVerif.Proofs.PendQWfqFair
 /-!
 # C17 — scheduler half: fragment order, contiguity without interleaving, round robin, WFQ, accounting
 
@@ -105,6 +105,131 @@ theorem C17_rr_no_starvation (N : Nat) (pre ops : List Op) (hpre : Basic pre) (h
     (d + 1) * N ≤ (popsOf r.2).length → c ∈ popsOf r.2 := by
   intro q1 r hNpre hNops hq hd hmany
   exact rr_no_starvation N pre ops hpre hops hNpre hNops c s d l1 l2 hq hd hmany
+
+/-! ### weighted fair queueing (finish tags over exact rationals)
+
+`wfqFresh ws` is `newPendingQueue` with the WFQ factory for weights `ws` followed by
+`setInterleaving(true)`. `w.sq s` is the queue of stream `s` as `(chunk, finish tag)` pairs, `w.fin s`
+is `streamFinish[s]`, `w.vtime` the virtual time, `WFQ.wt w s` the weight of `s` (1 if none or 0 is
+configured). -/
+
+/-- **WFQ tags are monotone.** After any list of push / peek / pop operations (stale peeks included):
+along every stream queue the finish tags are non-decreasing, `streamFinish[s]` is the tag of the
+newest chunk of `s` and bounds all its queued tags, the virtual time is non-negative and the start
+tag (finish − len/weight) of every head chunk is at most the virtual time. -/
+theorem C17_wfq_tags_monotone (ws : AMap Nat) (ops : List Op) (hops : Basic ops) (w : WFQ Rat)
+    (hq : ((wfqFresh ws).run ops).1.policy = .wfq w) (s : Nat) :
+    (w.sq s).Pairwise (fun x y => x.2 ≤ y.2) ∧ (∀ x ∈ w.sq s, x.2 ≤ w.fin s) ∧
+    (∀ l x, w.sq s = l ++ [x] → w.fin s = x.2) ∧ 0 ≤ w.vtime ∧
+    (∀ c f tl, w.sq s = (c, f) :: tl → f - (c.len : Rat) / WFQ.wt w s ≤ w.vtime) := by
+  obtain ⟨w', hq', hg, _, _⟩ := wfq_run_g ops (wfqFresh ws) _ (wfqFresh_policy ws) (WFQ.ginv_new ws) (WFQ.wf_new ws) hops
+  rw [hq] at hq'; cases hq'
+  exact ⟨hg.t1 s, hg.t2 s, hg.t2l s, hg.v0, hg.a s⟩
+
+/-- **With atomic peek-pop every queued tag is at least the virtual time.** If no push happens
+between a `peek` and the `pop` of the chunk it selected (`PQ.Atomic`), then in every reachable state
+all head tags — hence all queued tags — are `≥ vtime`, and inside a backlogged stream the start tag of
+each chunk is the finish tag of its predecessor. -/
+theorem C17_wfq_heads_ge_V (ws : AMap Nat) (ops : List Op) (hops : Basic ops) (hat : PQ.Atomic (wfqFresh ws) ops)
+    (w : WFQ Rat) (hq : ((wfqFresh ws).run ops).1.policy = .wfq w) (s : Nat) :
+    (∀ c f tl, w.sq s = (c, f) :: tl → w.vtime ≤ f) ∧
+    (∀ l1 c1 f1 c2 f2 l2, w.sq s = l1 ++ (c1, f1) :: (c2, f2) :: l2 → f2 - (c2.len : Rat) / WFQ.wt w s = f1) := by
+  obtain ⟨w', hq', ha, _, _, _⟩ := wfq_run ops (wfqFresh ws) _ (wfqFresh_policy ws) (WFQ.ainv_new ws) (WFQ.wf_new ws) hops hat
+  rw [hq] at hq'; cases hq'
+  exact ⟨ha.b s, ha.ce s⟩
+
+/-- **WFQ serves the least finish tag, ties by stream id.** In any reachable state `w` (any basic
+operation list): if the next `pop` hands out chunk `c`, then `c` is the head of its stream's queue
+and (i) when no selection is cached its `(finish tag, stream id)` is lexicographically least among all
+heads — so Go's random map iteration order cannot show; (ii) when a selection is cached it is the
+head of the cached stream. Along atomic operation lists the tag of the served chunk is in both cases
+`≤` every head tag. -/
+theorem C17_wfq_serves_min (ws : AMap Nat) (ops : List Op) (hops : Basic ops) (w : WFQ Rat)
+    (hq : ((wfqFresh ws).run ops).1.policy = .wfq w) (c : Chunk)
+    (hpop : (((wfqFresh ws).run ops).1.step .pop).2 = .popped (some c) .ok) :
+    ∃ f tl, w.sq c.sid = (c, f) :: tl ∧ (w.sel = false → WFQ.IsMin w c.sid f) ∧
+      (w.sel = true → c.sid = w.selStream) ∧
+      (PQ.Atomic (wfqFresh ws) ops → ∀ s' c' f' tl', w.sq s' = (c', f') :: tl' → f ≤ f') := by
+  obtain ⟨w0, hq0, _, hwf, _⟩ := wfq_run_g ops (wfqFresh ws) _ (wfqFresh_policy ws) (WFQ.ginv_new ws) (WFQ.wf_new ws) hops
+  rw [hq] at hq0; cases hq0
+  obtain ⟨w', _, _, hstep, _⟩ := wfq_step_obs hq hwf .pop rfl
+  rw [evPop_eq_of_popped hpop] at hstep
+  rcases hstep.2 with ⟨hpo, _⟩ | ⟨s0, c0, f, tl, hq0, hpo, hcs, hselT, hselF, _⟩
+  · simp at hpo
+  · simp at hpo; subst hpo; subst hcs
+    refine ⟨f, tl, hq0, hselF, hselT, ?_⟩
+    intro hat
+    obtain ⟨wa, hqa, ha, _, _, _⟩ := wfq_run ops (wfqFresh ws) _ (wfqFresh_policy ws) (WFQ.ainv_new ws) (WFQ.wf_new ws) hops hat
+    rw [hq] at hqa; cases hqa
+    cases hsel : w.sel with
+    | true =>
+      obtain ⟨c1, f1, tl1, hq1, hm⟩ := ha.m hsel
+      rw [← hselT hsel, hq0] at hq1
+      simp only [List.cons.injEq, Prod.mk.injEq] at hq1
+      obtain ⟨⟨_, rfl⟩, _⟩ := hq1
+      exact hm
+    | false => exact fun s' c' f' tl' hq' => (hselF hsel s' c' f' tl' hq').1
+
+/-- **WFQ fairness (headline).** Build the scheduler with any weights, run any basic operation list
+`pre` (reachable state), then any basic operation list `mid` such that streams `i` and `j` have queued
+data in every state along `mid`, and such that over `pre ++ mid` no push happens between a `peek` and
+the `pop` of the chunk it selected. Let `S_i`, `S_j` be the payload bytes of `i`, `j` popped during
+`mid`, `w_i`, `w_j` their weights and `L_i`, `L_j` bounds on the chunk sizes pushed on `i`, `j`. Then
+`|S_i/w_i − S_j/w_j| ≤ L_i/w_i + L_j/w_j` — one maximum-size chunk per stream, weight-normalised. -/
+theorem C17_wfq_fair (ws : AMap Nat) (pre mid : List Op) (hpre : Basic pre) (hmid : Basic mid)
+    (hat : PQ.Atomic (wfqFresh ws) (pre ++ mid)) (i j : Nat) (Li Lj : Nat)
+    (hLi : ∀ c ∈ pushesOf ((wfqFresh ws).run (pre ++ mid)).2, c.sid = i → c.len ≤ Li)
+    (hLj : ∀ c ∈ pushesOf ((wfqFresh ws).run (pre ++ mid)).2, c.sid = j → c.len ≤ Lj)
+    (hall : PQ.AllStates (fun q => q.backlogged i ∧ q.backlogged j) ((wfqFresh ws).run pre).1 mid) :
+    let tr := (((wfqFresh ws).run pre).1.run mid).2
+    let wi := WFQ.wt (WFQ.new ws : WFQ Rat) i
+    let wj := WFQ.wt (WFQ.new ws : WFQ Rat) j
+    |(served tr i : Rat) / wi - (served tr j : Rat) / wj| ≤ (Li : Rat) / wi + (Lj : Rat) / wj := by
+  intro tr wi wj
+  obtain ⟨hat1, hat2⟩ := (atomic_append _ pre mid).mp hat
+  obtain ⟨w1, hq1, ha1, hwf1, hwt1, _⟩ := wfq_run pre (wfqFresh ws) _ (wfqFresh_policy ws) (WFQ.ainv_new ws) (WFQ.wf_new ws) hpre hat1
+  obtain ⟨w2, hq2, _, hcore⟩ := wfq_fair_core hq1 ha1 hwf1 mid hmid hat2 i j hall
+  have hwi : WFQ.wt w1 i = wi := WFQ.wt_congr hwt1 i
+  have hwj : WFQ.wt w1 j = wj := WFQ.wt_congr hwt1 j
+  rw [hwi, hwj] at hcore
+  have pi : 0 < wi := WFQ.wt_pos _ i
+  have pj : 0 < wj := WFQ.wt_pos _ j
+  -- every queued chunk was pushed, so the head lengths are bounded by L
+  have hbasic : ∀ o ∈ pre ++ mid, o.basic = true := by
+    intro o ho; rcases List.mem_append.mp ho with h | h
+    · exact hpre o h
+    · exact hmid o h
+  obtain ⟨hr1, hr2⟩ := run_append (wfqFresh ws) pre mid
+  have hpre_sub : ∀ c ∈ pushesOf ((wfqFresh ws).run pre).2, c ∈ pushesOf ((wfqFresh ws).run (pre ++ mid)).2 := by
+    intro c hc; rw [hr2, pushesOf_append]; exact List.mem_append_left _ hc
+  have hbound : ∀ (k L : Nat), (∀ c ∈ pushesOf ((wfqFresh ws).run (pre ++ mid)).2, c.sid = k → c.len ≤ L) →
+      WFQ.headLen w1 k ≤ L ∧ WFQ.headLen w2 k ≤ L := by
+    intro k L hL
+    constructor
+    · unfold WFQ.headLen
+      cases hh : w1.sq k with
+      | nil => simp
+      | cons x tl =>
+        simp only [List.head?_cons]
+        have hm := wfq_queued_mem_pushes ws pre hpre hq1 (s := k) (x := x) (by rw [hh]; simp)
+        exact hL x.1 (hpre_sub _ hm) (WFQ.sid_of_mem_sq hwf1 (by rw [hh]; simp))
+    · unfold WFQ.headLen
+      have hq2' : ((wfqFresh ws).run (pre ++ mid)).1.policy = .wfq w2 := by rw [hr1]; exact hq2
+      obtain ⟨w0, hq0, _, hwf2, _⟩ := wfq_run_g (pre ++ mid) (wfqFresh ws) _ (wfqFresh_policy ws) (WFQ.ginv_new ws) (WFQ.wf_new ws) hbasic
+      rw [hq2'] at hq0; cases hq0
+      cases hh : w2.sq k with
+      | nil => simp
+      | cons x tl =>
+        simp only [List.head?_cons]
+        have hm := wfq_queued_mem_pushes ws (pre ++ mid) hbasic hq2' (s := k) (x := x) (by rw [hh]; simp)
+        exact hL x.1 hm (WFQ.sid_of_mem_sq hwf2 (by rw [hh]; simp))
+  obtain ⟨bi1, bi2⟩ := hbound i Li hLi
+  obtain ⟨bj1, bj2⟩ := hbound j Lj hLj
+  have mi : (max (WFQ.headLen w1 i) (WFQ.headLen w2 i) : Rat) / wi ≤ (Li : Rat) / wi :=
+    div_le_div_of_nonneg_right (max_le (by exact_mod_cast bi1) (by exact_mod_cast bi2)) (le_of_lt pi)
+  have mj : (max (WFQ.headLen w1 j) (WFQ.headLen w2 j) : Rat) / wj ≤ (Lj : Rat) / wj :=
+    div_le_div_of_nonneg_right (max_le (by exact_mod_cast bj1) (by exact_mod_cast bj2)) (le_of_lt pj)
+  linarith
 
 -- the theorems above are not vacuous: a run that fragments, switches mode and interleaves
 private def exOps : List Op :=
